@@ -301,6 +301,212 @@ def translate_add_results(repo):
     return rejects
 
 
+
+# ------------------------------------------------------------------ round 5: arguments of HandleSolution, GetSolution, writer chain, use sites
+def is_call(n, name, base_pred=None):
+    n = strip(n)
+    if n.get('kind') not in ('CallExpr', 'CXXMemberCallExpr') or not n.get('inner'):
+        return False
+    c = strip(n['inner'][0])
+    if nm_of(c) != name and callee_name(n) != name:
+        return False
+    if base_pred is not None:
+        b = strip(c['inner'][0]) if c.get('inner') else {}
+        return base_pred(b)
+    return True
+
+
+SOLCHK = {}
+
+
+def translate_get_solution(repo, tuf):
+    """FlatBackend::GetSolution must be:  x = PrimalSolution(); y = DualSolution(); …postsolve…;
+       x1 = …; if (x.empty()) x1.clear();  y1 = …; if (y.Empty()) y1.clear();  return {x1, y1, objvals};
+    i.e. the primal (dual) vector of the reported solution is empty exactly when the solver returned none
+    (the postsolved vector of a model with at least one variable / constraint is not empty)."""
+    d, body = method_body(repo, tuf, 'FlatBackend::GetSolution', 'GetSolution', 'include/mp/flat/backend_flat.h')
+    src, clears, ret = {}, {}, None
+    for st in body['inner']:
+        k = st.get('kind')
+        if k == 'DeclStmt':
+            for v in st['inner']:
+                if v.get('kind') == 'VarDecl' and v.get('inner'):
+                    init = strip(v['inner'][0])
+                    for fn in ('PrimalSolution', 'DualSolution'):
+                        if is_call(init, fn):
+                            src[v['name']] = fn
+        elif k == 'IfStmt':
+            inner = st['inner']
+            c, th = strip(inner[0]), strip(inner[1])
+            if len(inner) != 2:
+                raise TranslateError('GetSolution: if with else')
+            if th.get('kind') == 'CompoundStmt' and len(th.get('inner', [])) == 1:
+                th = strip(th['inner'][0])
+            cname = callee_name(c) if c.get('kind') in ('CallExpr', 'CXXMemberCallExpr') else None
+            cbase = nm_of(strip(strip(c['inner'][0])['inner'][0])) if cname and strip(c['inner'][0]).get('inner') else None
+            if cname in ('empty', 'Empty') and cbase in src and is_call(th, 'clear'):
+                tgt = nm_of(strip(strip(th['inner'][0])['inner'][0]))
+                clears[tgt] = src[cbase]
+            else:
+                raise TranslateError('GetSolution: conditional statement not understood (only `if (x.empty()) x1.clear();` is)')
+        elif k == 'ReturnStmt':
+            lst = strip(st['inner'][0])
+            if lst.get('kind') != 'InitListExpr' or len(lst.get('inner', [])) != 3:
+                raise TranslateError('GetSolution: return is not {primal, dual, objvals}')
+            ret = [nm_of(strip(x)) for x in lst['inner'][:2]]
+        else:
+            raise TranslateError('GetSolution: statement %s not understood' % k)
+    # auto fKnownInfeasOrUnb = IsProblemInfeasible();  …PostsolveSolution({x, y, objvals, (void*)fKnownInfeasOrUnb})
+    flag = None
+    for v in find_all(body, 'VarDecl'):
+        if v.get('inner') and strip(v['inner'][0]).get('kind') in ('CallExpr', 'CXXMemberCallExpr') and callee_name(strip(v['inner'][0])) in PREDICATES:
+            if flag is not None:
+                raise TranslateError('GetSolution: more than one status predicate consulted')
+            flag = (v['name'], callee_name(strip(v['inner'][0])))
+    posts = [c for kk in ('CallExpr', 'CXXMemberCallExpr') for c in find_all(body, kk) if c.get('inner') and callee_name(c) == 'PostsolveSolution']
+    if flag is None or len(posts) != 1:
+        raise TranslateError('GetSolution: known-infeasible flag / PostsolveSolution call not found')
+    lists = find_all(posts[0], 'InitListExpr')
+    if len(lists) != 1 or len(lists[0].get('inner', [])) != 4 or flag[0] not in [nm_of(x) for x in find_all(lists[0]['inner'][3], 'DeclRefExpr')]:
+        raise TranslateError('GetSolution: the predicate value is not the 4th element handed to PostsolveSolution')
+    SOLCHK['pred'] = flag[1]
+    if ret is None or clears.get(ret[0]) != 'PrimalSolution' or clears.get(ret[1]) != 'DualSolution':
+        raise TranslateError('GetSolution: returned vectors are not cleared exactly when the solver returned none (%s, %s)' % (ret, clears))
+    return True
+
+
+def translate_handle_args(body):
+    """HandleSolution(SolveCode(), msg, sol.primal.empty()?0:sol.primal.data(), sol.dual.empty()?0:sol.dual.data(), obj_value)"""
+    calls = [c for kk in ('CallExpr', 'CXXMemberCallExpr') for c in find_all(body, kk) if c.get('inner') and callee_name(c) == 'HandleSolution']
+    if len(calls) != 1 or len(calls[0]['inner']) != 6:
+        raise TranslateError('ReportSolution2AMPL: HandleSolution call with %s arguments' % (len(calls[0]['inner']) - 1 if calls else 'no'))
+    args = [strip(a) for a in calls[0]['inner'][1:]]
+    out = {}
+    for idx, member in ((2, 'primal'), (3, 'dual')):
+        a = args[idx]
+        ok = False
+        if a.get('kind') == 'ConditionalOperator':
+            c, t, e = [strip(x) for x in a['inner']]
+            vec = lambda n: nm_of(n) == member and n.get('inner') and nm_of(strip(n['inner'][0])) == 'sol'
+            if is_call(c, 'empty', vec) and t.get('kind') in ('IntegerLiteral', 'CXXNullPtrLiteralExpr', 'GNUNullExpr') and is_call(e, 'data', vec):
+                ok = True
+        if not ok:
+            raise TranslateError('ReportSolution2AMPL: argument %d of HandleSolution is not `sol.%s.empty() ? 0 : sol.%s.data()`' % (idx + 1, member, member))
+        out[member] = True
+    if nm_of(args[4]) != 'obj_value':
+        raise TranslateError('ReportSolution2AMPL: last argument of HandleSolution is not obj_value')
+    # obj_value starts as NaN
+    init_ok = False
+    for v in find_all(body, 'VarDecl'):
+        if v.get('name') == 'obj_value' and 'quiet_NaN' in json.dumps(v):
+            init_ok = True
+    if not init_ok:
+        raise TranslateError('ReportSolution2AMPL: obj_value is not initialised with quiet_NaN()')
+    return out
+
+
+def first_param_forwarded(d, body, callee, what, nargs=None, ctor=None):
+    """the first parameter of method `d` is the first argument of the (single) call of `callee` / construction of `ctor`"""
+    params = [x.get('name') for x in d['inner'] if x.get('kind') == 'ParmVarDecl']
+    if ctor:
+        cands = []
+        for v in find_all(body, 'VarDecl'):
+            if ctor in v.get('type', {}).get('qualType', '') and v.get('inner'):
+                cands.append(strip(v['inner'][0]))
+        if len(cands) != 1:
+            raise TranslateError('%s: expected one %s object, found %d' % (what, ctor, len(cands)))
+        init = cands[0]
+        args = [strip(a) for a in init.get('inner', [])]
+        if init.get('kind') in ('CallExpr',):
+            args = args[1:]
+    else:
+        calls = [c for kk in ('CallExpr', 'CXXMemberCallExpr') for c in find_all(body, kk) if c.get('inner') and callee_name(c) == callee]
+        if len(calls) != 1:
+            raise TranslateError('%s: expected one call of %s, found %d' % (what, callee, len(calls)))
+        args = [strip(a) for a in calls[0]['inner'][1:]]
+    if nargs is not None and len(args) != nargs:
+        raise TranslateError('%s: %s called with %d arguments (expected %d)' % (what, callee or ctor, len(args), nargs))
+    if not args or nm_of(args[0]) != params[0] or args[0].get('kind') != 'DeclRefExpr':
+        raise TranslateError('%s: first argument of %s is not the first parameter `%s`' % (what, callee or ctor, params[0]))
+    return 'c'
+
+
+def translate_writer_chain(repo, work):
+    """AppSolutionHandlerImpl::HandleSolution -> SolutionWriterImpl::HandleSolution -> SolutionAdapter(status, …) ->
+    WriteSolFile: `objno {} {}` with sol.status();  SolutionWriterImpl::HandleFeasibleSolution -> SolutionAdapter(status, …)"""
+    tu = os.path.join(work, 'solverio_tu.cc')
+    open(tu, 'w').write('#include "mp/solver-io.h"\n')
+    hops = {}
+    docs = clang_cached(tu, 'HandlerImpl', repo) + clang_cached(tu, 'SolutionWriterImpl', repo)
+    set_source(os.path.join(repo, 'include/mp/solver-io.h'))
+
+    def meth(cls_hint, name, nparams):
+        ds = [d for d in docs if d.get('kind') == 'CXXMethodDecl' and d.get('name') == name
+              and any(x.get('kind') == 'CompoundStmt' for x in d.get('inner', []))
+              and len([x for x in d['inner'] if x.get('kind') == 'ParmVarDecl']) == nparams]
+        return ds
+    # AppSolutionHandlerImpl::HandleSolution is the one that calls the base class' HandleSolution
+    app = [d for d in meth('App', 'HandleSolution', 5) if 'ampl_flag' in json.dumps(d)]
+    wr = [d for d in meth('Writer', 'HandleSolution', 5) if 'ampl_flag' not in json.dumps(d)]
+    wf = meth('Writer', 'HandleFeasibleSolution', 5)
+    if len(app) != 1 or len(wr) != 1 or len(wf) != 1:
+        raise TranslateError('solver-io.h: HandleSolution/HandleFeasibleSolution definitions found: app %d writer %d feasible %d' % (len(app), len(wr), len(wf)))
+    body = lambda d: [x for x in d['inner'] if x['kind'] == 'CompoundStmt'][0]
+    hops['hopAppHandler'] = first_param_forwarded(app[0], body(app[0]), 'HandleSolution', 'AppSolutionHandlerImpl::HandleSolution', nargs=5)
+    hops['hopWriterFinal'] = first_param_forwarded(wr[0], body(wr[0]), None, 'SolutionWriterImpl::HandleSolution', ctor='SolutionAdapter')
+    hops['hopWriterFeasible'] = first_param_forwarded(wf[0], body(wf[0]), None, 'SolutionWriterImpl::HandleFeasibleSolution', ctor='SolutionAdapter')
+    # SolutionAdapter: status_(status), status() returns status_
+    ad0 = clang_cached(tu, 'SolutionAdapter', repo)
+    ad = [m for d in ad0 for kk in ('CXXMethodDecl', 'CXXConstructorDecl') for m in find_all(d, kk)]
+    st = [d for d in ad if d.get('kind') == 'CXXMethodDecl' and d.get('name') == 'status']
+    ok = False
+    for d in st:
+        b = [x for x in d.get('inner', []) if x.get('kind') == 'CompoundStmt']
+        if b and len(b[0].get('inner', [])) == 1 and b[0]['inner'][0].get('kind') == 'ReturnStmt' and nm_of(strip(b[0]['inner'][0]['inner'][0])) == 'status_':
+            ok = True
+    ctor_ok = False
+    for d in ad:
+        if d.get('kind') == 'CXXConstructorDecl':
+            params = [x['name'] for x in d.get('inner', []) if x.get('kind') == 'ParmVarDecl']
+            for ini in [x for x in d.get('inner', []) if x.get('kind') == 'CXXCtorInitializer']:
+                if ini.get('anyInit', {}).get('name') == 'status_' and params and nm_of(strip(ini['inner'][0])) == params[0]:
+                    ctor_ok = True
+    if not ok or not ctor_ok:
+        raise TranslateError('SolutionAdapter: status() is not the stored first constructor argument (getter %s, ctor %s)' % (ok, ctor_ok))
+    # WriteSolFile: file.print("objno {} {}\n", sol.objno()-1, sol.status())
+    tus = os.path.join(work, 'sol_tu.cc')
+    open(tus, 'w').write('#include "mp/sol.h"\n')
+    set_source(os.path.join(repo, 'include/mp/sol.h'))
+    ws = [d for d in clang_cached(tus, 'WriteSolFile', repo) if d.get('kind') in ('FunctionDecl', 'FunctionTemplateDecl')]
+    found = 0
+    for c in [c for kk in ('CallExpr', 'CXXMemberCallExpr') for d in ws for c in find_all(d, kk)]:
+        lits = [json.loads(l['value']) for l in find_all(c, 'StringLiteral')] if c.get('inner') else []
+        if any(l.startswith('objno ') for l in lits) and callee_name(c) == 'print':
+            args = [strip(a) for a in c['inner'][1:]]
+            if lits != ['objno {} {}\n'] or len(args) != 3 or not is_call(args[2], 'status', lambda b: nm_of(b) == 'sol'):
+                raise TranslateError('WriteSolFile: the objno line is not `objno {} {}` with sol.status() as the code')
+            found += 1
+    if found < 1:
+        raise TranslateError('WriteSolFile: no objno line found')
+    return hops
+
+
+def translate_use_sites(repo, tu, tum, tuf):
+    """every call of a status predicate inside StdBackend / MIPBackend / FlatBackend: (Class::method, predicate)"""
+    sites = set()
+    for t, filt, cls in ((tu, 'StdBackend::', 'StdBackend'), (tum, 'MIPBackend::', 'MIPBackend'), (tuf, 'FlatBackend::', 'FlatBackend')):
+        set_source(os.path.join(repo, {'StdBackend': 'include/mp/backend-std.h', 'MIPBackend': 'include/mp/backend-mip.h', 'FlatBackend': 'include/mp/flat/backend_flat.h'}[cls]))
+        for d in clang_cached(t, filt, repo):
+            if d.get('kind') != 'CXXMethodDecl' or not any(x.get('kind') == 'CompoundStmt' for x in d.get('inner', [])):
+                continue
+            b = [x for x in d['inner'] if x['kind'] == 'CompoundStmt'][0]
+            for c in find_all(b, 'CallExpr') + find_all(b, 'CXXMemberCallExpr'):
+                nm = callee_name(c) if c.get('inner') else None
+                if nm in PREDICATES:
+                    sites.add(('%s::%s' % (cls, d['name']), nm))
+    return sorted(sites)
+
+
 # ------------------------------------------------------------------ main
 def main(repo, out, work):
     os.makedirs(work, exist_ok=True)
@@ -317,6 +523,18 @@ def main(repo, out, work):
         raise TranslateError('ReportSolution2AMPL: no writes / not exactly one HandleSolution call')
     if msg[-1][0] != 'call HandleSolution' or msg[-1][1]:
         raise TranslateError('ReportSolution2AMPL: HandleSolution is not the final unconditional step')
+    handle_args = translate_handle_args(body)
+    tuf = os.path.join(work, 'flat_tu.cc')
+    open(tuf, 'w').write('#include "mp/flat/backend_flat.h"\n')
+    translate_get_solution(repo, tuf)
+
+    def guard_of(label, allow_many=False):
+        gs = [g for l, g in msg if l == label]
+        if not gs or (len(gs) != 1 and not allow_many):
+            raise TranslateError('ReportSolution2AMPL: expected %s step `%s`, found %d' % ('a' if allow_many else 'one', label, len(gs)))
+        return ' || '.join('(%s)' % conj(g) for g in gs)
+    named = {'objValueSetGuard': guard_of('set obj_value', True), 'feasrelaxWordGuard': guard_of('write feasrelax '),
+             'origObjGuard': guard_of('write \nOriginal objective = {}')}
     # 2. guards of the suffix reports
     _, b2 = method_body(repo, tu, 'StdBackend::ReportStandardSuffixes', 'ReportStandardSuffixes', 'include/mp/backend-std.h')
     e2 = Events('ReportStandardSuffixes', {'ReportKappa', 'ReportSolveTime'}, want_writes=False)
@@ -360,6 +578,40 @@ def main(repo, out, work):
     open(tus, 'w').write('#include "mp/solver-base.h"\n')
     reg_lt = translate_reg_lt(repo, tus)
     rejects = translate_add_results(repo)
+    whops = translate_writer_chain(repo, work)
+    # initial status of a backend that never calls SetStatus:  status_ { sol::NOT_SET, "status not set" }
+    fd = [d for d in clang_cached(tu, 'StdBackend::status_', repo) if d.get('kind') == 'FieldDecl' and d.get('name') == 'status_']
+    if len(fd) != 1 or not fd[0].get('inner'):
+        raise TranslateError('StdBackend::status_: default member initializer not found')
+    ini = strip(fd[0]['inner'][0])
+    refs = [nm_of(x) for x in find_all(ini, 'DeclRefExpr')]
+    if len(refs) != 1 or refs[0] is None:
+        raise TranslateError('StdBackend::status_: initial code is not a single enumerator')
+    initial_status = refs[0]
+    # MIPBackend: ReportStandardSuffixes = base + ReportStandardMIPSuffixes; the latter calls ReportRays and CalculateAndReportIIS unconditionally
+    mip_steps = {}
+    for fn, interest in (('ReportStandardSuffixes', {'ReportStandardSuffixes', 'ReportStandardMIPSuffixes'}),
+                         ('ReportStandardMIPSuffixes', {'ReportRays', 'CalculateAndReportIIS'})):
+        _, b = method_body(repo, tum, 'MIPBackend::' + fn, fn, 'include/mp/backend-mip.h')
+        e = Events('MIPBackend::' + fn, interest, want_writes=False)
+        try:
+            e.walk(b, [])
+        except TranslateError:
+            # other (irrelevant) steps of this function may sit under conditions the translator has no atom for:
+            # only require that the steps of interest are unconditional statements of the body
+            e.events = []
+            for st in b['inner']:
+                stt = strip(st)
+                if stt.get('kind') in ('CallExpr', 'CXXMemberCallExpr') and stt.get('inner') and callee_name(stt) in interest:
+                    e.events.append(('call ' + callee_name(stt), []))
+            inside = [callee_name(c) for st in b['inner'] if strip(st).get('kind') not in ('CallExpr', 'CXXMemberCallExpr')
+                      for kk in ('CallExpr', 'CXXMemberCallExpr') for c in find_all(st, kk) if c.get('inner')]
+            if any(x in interest for x in inside):
+                raise TranslateError('MIPBackend::%s: %s is called conditionally' % (fn, [x for x in inside if x in interest]))
+        if any(gd for _, gd in e.events):
+            raise TranslateError('MIPBackend::%s: conditional reporting step' % fn)
+        mip_steps[fn] = [l.split(' ', 1)[1] for l, _ in e.events]
+    sites = translate_use_sites(repo, tu, tum, tuf)
 
     o = ['/- GENERATED by translators/gen_report.py from include/mp/backend-std.h (ReportSolution2AMPL, ReportStandardSuffixes,',
          '   ReportResults, ReportSolution, ReportSuffixes), include/mp/backend-mip.h (ReportRays, CalculateAndReportIIS),',
@@ -375,11 +627,40 @@ def main(repo, out, work):
     o.append(',\n'.join('  (%s, fun a => %s)' % (lean_str(l), conj(g)) for l, g in msg))
     o.append(']')
     o.append('')
-    for k, v in sg.items():
+    for k, v in list(sg.items()) + list(named.items()):
         o.append('def %s (a : Answer) : Bool := %s' % (k, v))
+    o.append('')
+    o.append('/-- `auto fKnownInfeasOrUnb = <predicate>();` handed to the value postsolver: the automatic solution check is skipped -/')
+    o.append('def solCheckSkippedGuard (a : Answer) : Bool := %s a.code' % lean_name(SOLCHK['pred']))
+    o.append('/-- FlatBackend::GetSolution: `if (x.empty()) x1.clear();` / `if (y.Empty()) y1.clear();`, returned as {x1, y1, objvals}:')
+    o.append('    the reported primal (dual) vector is non-empty iff the solver returned one (model with ≥ 1 variable / constraint) -/')
+    o.append('def solPrimalNonEmpty (a : Answer) : Bool := (!(!a.hasPrimal))')
+    o.append('def solDualNonEmpty (a : Answer) : Bool := (!(!a.hasDual))')
+    o.append('/-- HandleSolution(…, sol.primal.empty() ? 0 : sol.primal.data(), sol.dual.empty() ? 0 : sol.dual.data(), obj_value): pointer non-null -/')
+    o.append('def handlePrimalPassed (a : Answer) : Bool := if (!solPrimalNonEmpty a) then false else true')
+    o.append('def handleDualPassed (a : Answer) : Bool := if (!solDualNonEmpty a) then false else true')
+    o.append('/-- obj_value starts as NaN and is passed as the last argument: it is a number iff `set obj_value` was executed -/')
+    o.append('def handleObjValuePassed (a : Answer) : Bool := objValueSetGuard a')
+    o.append('')
+    o.append('/-! the rest of the chain to the `objno N code` line: AppSolutionHandlerImpl::HandleSolution → SolutionWriterImpl::HandleSolution →')
+    o.append('   SolutionAdapter(status, …) → WriteSolFile prints `sol.status()`; SolutionWriterImpl::HandleFeasibleSolution likewise -/')
+    for h in ('hopAppHandler', 'hopWriterFinal', 'hopWriterFeasible'):
+        o.append('def %s (c : Int) : Int := %s' % (h, whops[h]))
+    o.append('def solFileCodeFinal (a : Answer) : Int := hopWriterFinal (hopAppHandler (finalCodeWritten a))')
+    o.append('def solFileCodeAlt (a : Answer) : Int := hopWriterFeasible (altCodeWritten a)')
+    o.append('')
+    o.append('/-- every place in StdBackend / MIPBackend / FlatBackend where a status predicate is consulted -/')
+    o.append('def predicateUseSites : List (String × String) := [')
+    o.append(',\n'.join('  (%s, %s)' % (lean_str(a), lean_str(b)) for a, b in sites))
+    o.append(']')
     o.append('')
     for fn in ('ReportResults', 'ReportSolution', 'ReportSuffixes'):
         o.append('def steps%s : List String := [%s]' % (fn, ', '.join(lean_str(x) for x in steps[fn])))
+    o.append('')
+    o.append('def stepsMIPStandardSuffixes : List String := [%s]' % ', '.join(lean_str(x) for x in mip_steps['ReportStandardSuffixes']))
+    o.append('def stepsMIPSuffixes : List String := [%s]' % ', '.join(lean_str(x) for x in mip_steps['ReportStandardMIPSuffixes']))
+    o.append('/-- code of a backend that never called SetStatus (default member initializer of status_) -/')
+    o.append('def initialStatus : Int := %s' % initial_status)
     o.append('')
     o.append('/-- the status predicates StdBackend declares (all of them are translated in Gen.Status) -/')
     o.append('def predicateNames : List String := [%s]' % ', '.join(lean_str(x) for x in names))
